@@ -166,6 +166,26 @@ impl RdbEngine {
         Ok(())
     }
     
+    /// SAVE on the calling thread. It uses the same temporary file as a background save, so it is
+    /// refused while one is under way and keeps background saves (BGSAVE, auto-save) out while it runs.
+    pub fn save_exclusive(&self, storage: &Arc<StorageEngine>) -> Result<()> {
+        {
+            let mut bgsave = self.bgsave_in_progress.lock().unwrap();
+            if *bgsave {
+                return Err(FerrousError::Internal(
+                    "Background save already in progress".into()
+                ));
+            }
+            *bgsave = true;
+        }
+        
+        let result = self.save(storage);
+        
+        let mut bgsave = self.bgsave_in_progress.lock().unwrap();
+        *bgsave = false;
+        result
+    }
+    
     /// Perform background save
     pub fn bgsave(&self, storage: Arc<StorageEngine>) -> Result<()> {
         // Check if background save is already in progress
